@@ -1023,7 +1023,10 @@ func (e *Engine) bitOp(op string, a, b Term, rt *types.Basic) Term {
 		ax := fmt.Sprintf("(forall ((x Int) (y Int)) (! (and (<= %s %s) (<= %s %s)) :pattern (%s)))", BigLit(lo).S, app.S, app.S, BigLit(hi).S, app.S)
 		e.u.AddAxiom(name, Term{ax, SBool})
 		if op == "bor" && isUnsigned(rt) {
-			ax2 := fmt.Sprintf("(forall ((x Int) (y Int)) (! (=> (and (>= x 0) (>= y 0)) (and (>= %s x) (>= %s y) (<= %s (+ x y)))) :pattern (%s)))", app.S, app.S, app.S, app.S)
+			// operands within the type only: together with the range axiom above, "x | y >= x" for an x above the
+			// type's maximum is a contradiction (an inconsistent axiom set lets a solver's model-based
+			// instantiation prove anything; found by a C07 mutation that verified although it must not)
+			ax2 := fmt.Sprintf("(forall ((x Int) (y Int)) (! (=> (and (>= x 0) (>= y 0) (<= x %s) (<= y %s)) (and (>= %s x) (>= %s y) (<= %s (+ x y)))) :pattern (%s)))", BigLit(hi).S, BigLit(hi).S, app.S, app.S, app.S, app.S)
 			e.u.AddAxiom(name, Term{ax2, SBool})
 		}
 		e.abstract("bit operation " + name + " treated as an uninterpreted function with range axioms")
